@@ -47,10 +47,28 @@ func makeConstantScope(container types.Namespace) constantScope {
 	}
 }
 
-func (c *Checker) deepCopyConstantScopes(oldEnv, newEnv *types.GlobalEnvironment) []constantScope {
+// Copies of using buffer namespaces made while copying the scopes.
+// A using buffer is shared by a constant scope and a method scope
+// and has to stay shared after they have been copied.
+type usingBufferCopies map[*types.UsingBufferNamespace]*types.UsingBufferNamespace
+
+func (u usingBufferCopies) deepCopyContainer(container types.Namespace, oldEnv, newEnv *types.GlobalEnvironment) types.Namespace {
+	buffer, ok := container.(*types.UsingBufferNamespace)
+	if !ok {
+		return types.DeepCopyEnv(container, oldEnv, newEnv).(types.Namespace)
+	}
+	if bufferCopy, ok := u[buffer]; ok {
+		return bufferCopy
+	}
+	bufferCopy := buffer.DeepCopyEnv(oldEnv, newEnv)
+	u[buffer] = bufferCopy
+	return bufferCopy
+}
+
+func (c *Checker) deepCopyConstantScopes(oldEnv, newEnv *types.GlobalEnvironment, buffers usingBufferCopies) []constantScope {
 	var newConstantScopes []constantScope
 	for _, constantScope := range c.constantScopes {
-		constantScope.container = types.DeepCopyEnv(constantScope.container, oldEnv, newEnv).(types.Namespace)
+		constantScope.container = buffers.deepCopyContainer(constantScope.container, oldEnv, newEnv)
 		newConstantScopes = append(newConstantScopes, constantScope)
 	}
 
@@ -140,10 +158,10 @@ type methodScope struct {
 	kind      scopeKind
 }
 
-func (c *Checker) deepCopyMethodScopes(oldEnv, newEnv *types.GlobalEnvironment) []methodScope {
+func (c *Checker) deepCopyMethodScopes(oldEnv, newEnv *types.GlobalEnvironment, buffers usingBufferCopies) []methodScope {
 	var newMethodScopes []methodScope
 	for _, methodScope := range c.methodScopes {
-		methodScope.container = types.DeepCopyEnv(methodScope.container, oldEnv, newEnv).(types.Namespace)
+		methodScope.container = buffers.deepCopyContainer(methodScope.container, oldEnv, newEnv)
 		newMethodScopes = append(newMethodScopes, methodScope)
 	}
 
